@@ -43,6 +43,18 @@ def gen_cases(ctx):
             d["p"] = rng.randint(0, 5)
         for d in right:
             d["q"] = rng.choice(["u", "v", "w"])
+        if renamed and rng.random() < 0.4:
+            # a left item may own an entry named like the RIGHT key (self-referential / lookup joins): it is the
+            # left item's data, the join must leave it alone
+            for d in left:
+                if rng.random() < 0.7:
+                    d[by[0][1]] = rng.choice([7, 8, 9])
+        if rng.random() < 0.25:
+            # equal key values in different spellings: 2 and 2.0, 1 and True are one key for dicts and sets
+            for d in left + right:
+                for kk in list(d):
+                    if isinstance(d[kk], int) and not isinstance(d[kk], bool) and kk in ("a", "k") and rng.random() < 0.5:
+                        d[kk] = True if (d[kk] == 1 and rng.random() < 0.5) else float(d[kk])
         op = rng.choice(JOINS + ["aggregate"])
         cases.append({"op": op, "left": left, "right": right, "by": by})
     return cases
@@ -93,8 +105,8 @@ def impl(case):
 
 def model_requests(case, obs):
     op, by = case["op"], case["by"]
-    xs = [{"t": t, "kv": kv} for t, kv in obs["pre_left"]]
-    ys = [{"t": t, "kv": kv} for t, kv in obs["pre_right"]]
+    xs = lodgen.to_model_items(obs["pre_left"])
+    ys = lodgen.to_model_items(obs["pre_right"])
     if op == "aggregate":
         return [("lod_aggregate", {"xs": xs, "keys": [x[0] for x in by]})]
     return [("lod_join", {"xs": xs, "ys": ys, "kind": op, "by1": [x[0] for x in by], "by2": [x[1] for x in by]})]
